@@ -59,7 +59,9 @@ def identify(identification: Identification) -> Expression:
 
     if district_without_treatment in graph.districts():
         parents = list(graph.topological_sort())
-        expression = Product.safe(p_parents(v, parents) for v in district_without_treatment)
+        expression = Product.safe(
+            p_parents(v, parents, identification.estimand) for v in district_without_treatment
+        )
         ranges = district_without_treatment - outcomes
         return Sum.safe(
             expression=expression,
@@ -243,7 +245,9 @@ def line_6(identification: Identification) -> Expression:
         raise ValueError("Line 6 precondition not met")
 
     parents = list(graph.topological_sort())
-    expression = Product.safe(p_parents(v, parents) for v in district_without_treatments)
+    expression = Product.safe(
+        p_parents(v, parents, identification.estimand) for v in district_without_treatments
+    )
     ranges = district_without_treatments - outcomes
     return Sum.safe(
         expression=expression,
@@ -292,19 +296,41 @@ def line_7(identification: Identification) -> Identification:
             return Identification.from_parts(
                 outcomes=outcomes,
                 treatments=treatments & district,
-                estimand=Product.safe(p_parents(v, parents) for v in district),
+                estimand=Product.safe(
+                    p_parents(v, parents, identification.estimand) for v in district
+                ),
                 graph=graph.subgraph(district),
             )
 
     raise ValueError("Could not identify suitable district")
 
 
-def p_parents(child: Variable, ordering: Sequence[Variable]) -> Probability:
+def p_parents(
+    child: Variable, ordering: Sequence[Variable], estimand: Expression | None = None
+) -> Expression:
     """Get a probability expression based on a topological ordering.
 
     :param child: The child variable
     :param ordering: A topologically ordered sequence of all variables. All occurring before the
         child will be used as parents.
+    :param estimand: The distribution currently available to the algorithm. If it is not given,
+        or if it is a marginal of the joint observational distribution, the conditional can be written
+        directly. Otherwise (e.g., after line 7 replaced it with a product of conditionals), the conditional
+        has to be derived from the estimand itself.
     :return: A probability expression
     """
-    return P(child | ordering[: ordering.index(child)])
+    index = ordering.index(child)
+    if estimand is None or _is_marginal_of_joint(estimand):
+        return P(child | ordering[:index])
+    numerator = Sum.safe(expression=estimand, ranges=ordering[index + 1 :])
+    return numerator / Sum.safe(expression=numerator, ranges=[child])
+
+
+def _is_marginal_of_joint(expression: Expression) -> bool:
+    if isinstance(expression, Sum):
+        return _is_marginal_of_joint(expression.expression)
+    return (
+        isinstance(expression, Probability)
+        and not expression.parents
+        and all(type(child) is Variable and child.star is None for child in expression.children)
+    )
